@@ -8,7 +8,7 @@
 // the new size is adopted from the implementation, required: new size > pos, old bits kept, new
 // bits zero.  Where the header documentation is silent the oracle abstains and counts it
 // (STAT abst.*): size after reset(), size after a shift (only: never smaller), &,|,^ between
-// different sizes (only the metamorphic relation is judged), == between different sizes,
+// different sizes (the flags are judged against the zero-extended operation, the result size is adopted), == between different sizes,
 // ++ on an end iterator, -- on an iterator that has no previous element.
 // sanitizer / _GLIBCXX_ASSERTIONS reports are classified by the driver.
 #include "vh.hpp"
@@ -684,9 +684,21 @@ void opBinary(DynamicBitset& d, Model& m, const Model& bm, int which, bool alias
    if (!ok) { m = readState(d); return; }
    if (!sameSize)
    {
-      // the documentation does not say what happens between different sizes: only the
-      // metamorphic relation is judged, the result is adopted
-      out.stat("abst.binop_different_size");
+      // different sizes: "each flag of this object with that of the other object" - a flag that an operand does not have is
+      // not set (zero extension).  The SIZE of the result is adopted from the implementation (not documented), the FLAGS are
+      // judged: every position of the result must hold the zero-extended operation, and no set flag of it may be cut off.
+      out.stat("abst.binop_different_size_result_size_adopted");
+      const size_t ns = cmpState.size();
+      const size_t mx = std::max(before.size(), om.size());
+      auto bit = [](const Model& x, size_t i) { return i < x.size() && x[i] != 0; };
+      auto opbit = [&](size_t i) { return (which == 0) ? (bit(before, i) && bit(om, i)) : (which == 1) ? (bit(before, i) || bit(om, i)) : (bit(before, i) != bit(om, i)); };
+      Model e(ns, 0);
+      for (size_t i = 0; i < ns; ++i) e[i] = opbit(i) ? 1 : 0;
+      bool cut = false;
+      for (size_t i = ns; i < mx; ++i) if (opbit(i)) cut = true;
+      if (cut) { gOp = bn[which]; fail("result-different-sizes", "a set flag of the result lies behind the size of the result: " + show(before) + " " + bn[which] + " " + show(om) + " gives " + show(cmpState)); gOp = cn[which]; }
+      else if (cmpState != e) { gOp = bn[which]; fail("result-different-sizes", show(before) + " " + bn[which] + " " + show(om) + ": expected " + show(e) + " got " + show(cmpState)); gOp = cn[which]; }
+      else out.stat("binop_different_size_flags_as_model");
       m = cmpState;
       return;
    }
